@@ -44,7 +44,7 @@ NS = {
     "pow2": lambda e: 2 ** e, "bit_length": _bit_length, "gcd": math.gcd, "divides": _divides,
     "powmod": lambda a, e, m: pow(a, e, m), "is_prime": _is_prime, "fits": lambda r, n: 0 <= r < 2 ** n,
     "imod": lambda a, b: a % b, "idiv": lambda a, b: a // b, "ite": lambda c, a, b: a if c else b,
-    "is_none": lambda x: x is None, "bval": lambda b: int.from_bytes(b, "big"), "blen": len, "euclid": lambda *a: True, "divmod_def": lambda *a: True, "by": lambda g, *a: g, "div_lt": lambda *a: True, "pow2_add": lambda *a: True,
+    "is_none": lambda x: x is None, "bval": lambda b: int.from_bytes(b, "big"), "blen": len, "euclid": lambda *a: True, "divmod_def": lambda *a: True, "bor": lambda a, b: a | b, "by": lambda g, *a: g, "div_lt": lambda *a: True, "pow2_add": lambda *a: True,
 }
 
 
